@@ -3,7 +3,7 @@ NOTES = "Driver: ./check <ID> --tier quick|thorough. Exit 0 held / 1 VIOLATION /
 NOT_APPLICABLE = {}
 META = {
     "C14": {
-        "text": "Stateful property-based exploration of the real msgpacker.Packer against a pending-list reference model: exactly-once, in-order delivery, error propagation, forced flush at deterministic thresholds and the global counter invariant are checked after every step of tens of thousands of generated histories. Sampling, not proof; the space (sizes x thresholds x interleavings of up to 3 packers) is small enough that every trigger combination is hit thousands of times.",
+        "text": "Stateful property-based exploration of the real msgpacker.Packer against a pending-list reference model: exactly-once, in-order delivery, error propagation, forced flush at deterministic thresholds and the global counter invariant are checked after every step of tens of thousands of generated histories. Sampling, not proof; the space (sizes x thresholds x interleavings of up to 3 packers) is small enough that every trigger combination is hit thousands of times. The write callback of the histories may rewrite the messages in place (as the production writer does), so that packs measure differently after the callback. TestC14_Service drives the loop that owns the batcher inside the real service: rows held back by the batcher, then the channel is shut down by pause / delete; once at rest the global counter must be zero again.",
         "design_ref": "DESIGN.md section 4 C14",
         "note": "Trusts the harness model (60 lines) and rapid. The age trigger is wall-clock driven; flushes it causes are accepted, not required.",
         "technique": "property-based testing (rapid), stateful model-based oracle",
@@ -15,7 +15,7 @@ META = {
         "technique": "property-based testing (rapid) + bounded exhaustive enumeration, invariant oracle",
     },
     "C17": {
-        "text": "Stateful model-based exploration of the real ReplicateMeteImpl: after every generated report/remove/reload step the JSON store, the in-memory view and a set-union model must agree. Found and led to two fix: commits (merged shards not kept in memory; partition messages not removed).",
+        "text": "Stateful model-based exploration of the real ReplicateMeteImpl: after every generated report/remove/reload step the JSON store, the in-memory view and a set-union model must agree. Found and led to two fix: commits (merged shards not kept in memory; partition messages not removed). Reports may occasionally name a shard outside the target set (the union then never equals the target set).",
         "design_ref": "DESIGN.md section 4 C17",
         "note": "Store fake = map with JSON round trip (same encoding as the etcd/MySQL replicate stores). Concurrency of reports is not explored (the implementation serialises on one mutex).",
         "technique": "property-based testing (rapid), stateful model-based oracle",
